@@ -128,7 +128,7 @@ def int_arg(val: Any, default: Optional[int] = None) -> int:
     """Return `val` as an int or `default` if `val` can't be cast to an int."""
     try:
         return to_int(val)
-    except ValueError as err:
+    except (ValueError, OverflowError) as err:
         if default is not None:
             return default
         raise FilterArgumentError(
